@@ -169,8 +169,100 @@ def check_decl(dc, st, tier, only=None):
     st.inc('value_sets', len(seen))
 
 
+NESTED_SRC = '''
+class Body(Packet):
+    n = Int(1)
+    d = Data(n)
+
+
+class Msg(Packet):
+    __bisturi__ = OPTS
+    kind = Int(1)
+    # the length field holds the SERIALIZED size of the body: computing it packs the body while the message is being packed
+    length = Int(2).describe(Auto(lambda pkt: len(pkt.body.pack())))
+    body = Ref(Body)
+    crc = Int(1).describe(Auto(lambda pkt: sum(pkt.body.pack()) & 0xff))
+
+
+class Env(Packet):
+    __bisturi__ = OPTS
+    h = Int(1)
+    msg = Ref(Msg)
+    msgs = Ref(Msg).repeated(h)
+    t = Int(1)
+'''
+
+
+def check_nested_pack(st, opts):
+    """pack() calls nest: a described field whose computation serializes a sub-packet runs a complete pack() in the middle of the
+    holder's. Every value assignment over small bodies, flat / inside a holder / inside a list: exact bytes (hand-written
+    encoding), reparse identity, a second pack() gives the same bytes."""
+    from mc import mk
+    src = 'OPTS = %r\n' % (opts,) + NESTED_SRC
+
+    def enc_body(d):
+        return bytes([len(d)]) + d
+
+    def enc_msg(kind, d):
+        b = enc_body(d)
+        return bytes([kind]) + len(b).to_bytes(2, 'big') + b + bytes([sum(b) & 0xff])
+    bodies = [b'', b'a', b'hi\x00', b'\xff' * 3]
+    with mk.World() as w:
+        m = w.module(src)
+        st.inc('programs')
+        for kind in (0, 1, 255):
+            for d in bodies:
+                for shape in ('flat', 'held', 'listed'):
+                    for d2 in ((b'',) if shape != 'listed' else bodies[:3]):
+                        st.inc('evaluations')
+                        st.inc('nested_pack_evaluations')
+
+                        def mk_msg(dd):
+                            return m.Msg(kind=kind, body=m.Body(n=len(dd), d=dd))
+                        if shape == 'flat':
+                            p, exp = mk_msg(d), enc_msg(kind, d)
+                        elif shape == 'held':
+                            p, exp = m.Env(h=0, msg=mk_msg(d), msgs=[], t=9), b'\x00' + enc_msg(kind, d) + b'\x09'
+                        else:
+                            p = m.Env(h=2, msg=mk_msg(d), msgs=[mk_msg(d2), mk_msg(d)], t=9)
+                            exp = b'\x02' + enc_msg(kind, d) + enc_msg(kind, d2) + enc_msg(kind, d) + b'\x09'
+                        what = '%s kind=%d body=%r%s (options %r)' % (shape, kind, d, (' second body=%r' % d2) if shape == 'listed' else '', opts)
+                        case = {'nested_pack': [opts, kind, d, shape, d2]}
+                        try:
+                            out = p.pack()
+                            out2 = p.pack()
+                        except Exception as e:
+                            st.violate('nested pack(): raises', '%s: pack() raised %r | %s' % (what, e, NESTED_SRC.replace('\n', '; ')), case, mk.HEADER + src)
+                            return
+                        if out != exp or out2 != exp:
+                            st.violate('nested pack(): pack-bytes', '%s: pack() -> %r, again -> %r, expected %r | %s' % (what, out, out2, exp, NESTED_SRC.replace('\n', '; ')), case, mk.HEADER + src)
+                            return
+                        try:
+                            q = type(p).unpack(out)
+                            back = q.pack()
+                            same = (q == p)
+                        except Exception as e:
+                            st.violate('nested pack(): reparse-fails', '%s: unpack(pack()) raised %r' % (what, e), case, mk.HEADER + src)
+                            return
+                        if back != exp or not same:
+                            st.violate('nested pack(): reparse-values', '%s: unpack(pack()) packs to %r (equal to the original: %r), expected %r' % (what, back, same, exp), case, mk.HEADER + src)
+                            return
+                        st.add('outcomes', ('nested', shape, len(d), bool(opts)))
+
+
+def _nested_shard(shard, nshards, payload):
+    from mc.common import Stats
+    st = Stats()
+    variants = [{}, {'generate_for_pack': False, 'generate_for_unpack': False}, {'vectorize': False}]
+    for i, o in enumerate(variants):
+        if i % nshards == shard:
+            check_nested_pack(st, o)
+    return st
+
+
 def run(tier):
     st = ea.run(MODULE, tier)
+    st.merge(common.merge_all(common.run_sharded(_nested_shard, {'tier': tier})))
     from mc import ea_o
     so = ea_o.run(MODULE, tier)         # every component alone once more under python -O (assert statements stripped)
     st.merge(so)
@@ -183,12 +275,17 @@ def run(tier):
                       {'value_sets': st.n.get('value_sets', 0), 'not_encodable': st.n.get('not_encodable', 0),
                        'reference_does_not_roundtrip': st.n.get('ref_nonroundtrip', 0)})
     cov['rule'] += LADDER_NOTE
-    cov['rule'] += '; every component alone once more in child interpreters started with -O'
+    cov['rule'] += '; every component alone once more in child interpreters started with -O; plus nested pack() calls (a described length / checksum whose computation serializes the sub-packet), flat, held and in a list, generated and generic'
     cov['programs_under_python_O'] = st.n.get('programs_under_O', 0)
     return {'stats': st, 'coverage': cov, 'assumptions': ['reference interpreter mc/refsem.py']}
 
 
 def replay(case):
+    if 'nested_pack' in case:
+        from mc.common import Stats
+        st = Stats()
+        check_nested_pack(st, case['nested_pack'][0])
+        return st.violations
     if case.get('optimized') and sys.flags.optimize < 1:
         from mc import ea_o
         return ea_o.replay(MODULE, case)
